@@ -58,8 +58,12 @@ def _main(tier, seed, extra):
         # what the index answers is regenerated from index.py and proved equal to the model's isearch (proofs/SearchGenP.v)
         rc, out = sh([PY, str(VERIF / "harness" / "py2coq_search.py"), str(REPO / "tinyflux" / "index.py"), str(COQ / "gen" / "SearchGen.v")], timeout=60)
         refused.extend(l for l in out.splitlines() if l.startswith("REFUSED"))
+        # what an insert decides about the index is regenerated from database.py (_insert_helper) and proved equal to the model's insert loop (proofs/InsertGenP.v)
+        run_translator("py2coq_insert.py", "tinyflux/database.py", "gen/InsertGen.v", refused)
     return dbtie.db_check("C06", tier, seed, PROFILE, 800, 4000, "Prop_C06",
                           "user callables and re are an environment the theorems quantify over; the tie instantiates them with the twin table",
-                          extra_cases=extra, pre=regen, extra_cov={"translator_index_search": {"source": "tinyflux/index.py: IndexResult set algebra, Index._search_helper, Index._search_timestamps -> coq/gen/SearchGen.v (regenerated on this run)", "refused": refused, "equivalence_theorem": "gen_search_helper_eq (C06_source_search_valid_is_rebuilt)"}, "enumerated_sequences": len(extra), "enumeration": "every operation sequence of depth 3 over a "
+                          extra_cases=extra, pre=regen, extra_cov={"translator_index_search": {"source": "tinyflux/index.py: IndexResult set algebra, Index._search_helper, Index._search_timestamps -> coq/gen/SearchGen.v (regenerated on this run)", "refused": refused, "equivalence_theorem": "gen_search_helper_eq (C06_source_search_valid_is_rebuilt)"},
+                                     "translator_insert": {"source": "tinyflux/database.py: TinyFlux._insert_helper -> coq/gen/InsertGen.v (regenerated on this run)", "refused": refused,
+                                                           "equivalence_theorem": "gen_insert_eq (C06_source_insert_is_the_model)"}, "enumerated_sequences": len(extra), "enumeration": "every operation sequence of depth 3 over a "
                                                         "15-letter alphabet and of depth 4 over its first 8 letters (thorough tier)"})
 
